@@ -25,7 +25,7 @@ UNCLAMPED = ['CvoR', 'CpoR', 'UoRT', 'SoR', 'FoRT', 'EoRT', 'q']     # not overr
 
 class WorldC08(World):
     PROP = 'C08'
-    RUNS = {'quick': 4000, 'thorough': 100000}
+    RUNS = {'quick': 4000, 'thorough': 80000}
     WALL = {'quick': 50, 'thorough': 560}
     STATE_CHANGING = ('mkspecies', 'mkrxn', 'mkcond', 'editcond', 'editspecies', 'rescale', 'badcall', 'mkbep')
     STATE_RULE = 'number of species / reactions / condition dictionaries, how many reactions share a species, blocks per dictionary'
